@@ -351,7 +351,8 @@ def pair_agreement_rule(chk: Check, eng: Engine, rule: str) -> None:
         if not (isinstance(lp, ast.For) and isinstance(lp.iter, ast.Call) and call_name(lp.iter) == "zip" and isinstance(lp.target, ast.Tuple) and len(lp.target.elts) == 2
                 and all(isinstance(e, ast.Name) for e in lp.target.elts)):
             continue
-        if not any(isinstance(iff, ast.If) and any(isinstance(c, ast.Call) and call_name(c) == "set_children" for st in iff.body for c in ast.walk(st)) for iff in ast.walk(lp)):
+        adopts = any(isinstance(c, ast.Call) and call_name(c) == "set_children" for c in ast.walk(lp))
+        if not adopts:
             continue  # not the guarded-adoption form (the filter form is handled below)
         v1, v2 = (e.id for e in lp.target.elts)  # type: ignore[union-attr]
         # locals defined from the loop variables inside the loop
@@ -379,11 +380,30 @@ def pair_agreement_rule(chk: Check, eng: Engine, rule: str) -> None:
                     t = re.sub(rf"\b{re.escape(nm)}\b", f"({tx})", t)
             return t
 
+        def resolve(e: ast.AST) -> ast.AST:
+            """a name that stands for the test (`is_same_message = (...)`) is replaced by the test"""
+            if isinstance(e, ast.Name):
+                ds = [a.value for a in ast.walk(lp) if isinstance(a, ast.Assign) and len(a.targets) == 1 and isinstance(a.targets[0], ast.Name) and a.targets[0].id == e.id]
+                if len(ds) == 1:
+                    return ds[0]
+            return e
+
+        guards = []
         for iff in ast.walk(lp):
-            if not (isinstance(iff, ast.If) and any(isinstance(c, ast.Call) and call_name(c) == "set_children" for st in iff.body for c in ast.walk(st))):
+            if not isinstance(iff, ast.If):
                 continue
+            if any(isinstance(c, ast.Call) and call_name(c) == "set_children" for st in iff.body for c in ast.walk(st)):
+                guards.append((iff, resolve(iff.test)))
+            elif iff.body and isinstance(iff.body[-1], (ast.Break, ast.Continue)) and not iff.orelse and isinstance(iff.test, ast.UnaryOp) and isinstance(iff.test.op, ast.Not):
+                # `if not <agreement>: break` in front of the adoption
+                guards.append((iff, resolve(iff.test.operand)))
+        if not guards:
+            chk.bad(rule, eng.relfile(pr), lp.lineno, pr.fq, f"the loop `for {v1}, {v2} in zip(...)` adopts content without an agreement test",
+                    "every parse of the history gets the real contents copied in, whatever its messages are", keyparts="agreement-absent")
             n += 1
-            conj = iff.test.values if isinstance(iff.test, ast.BoolOp) and isinstance(iff.test.op, ast.And) else [iff.test]
+        for iff, test_ in guards:
+            n += 1
+            conj = test_.values if isinstance(test_, ast.BoolOp) and isinstance(test_.op, ast.And) else [test_]
             compared: set[str] = set()
             for c in conj:
                 if not (isinstance(c, ast.Compare) and len(c.ops) == 1 and isinstance(c.ops[0], ast.Eq)):
